@@ -88,3 +88,38 @@ func HarnessC07_Unpad() {
 	vAssert(true, "unpadBuffer returned")
 	vReach("c07-unpad")
 }
+
+// xorBlock is a deterministic 16-byte "cipher" for the cost harness (no cryptographic meaning).
+type xorBlock struct{}
+
+func (xorBlock) BlockSize() int { return 16 }
+func (xorBlock) Encrypt(dst, src []byte) {
+	for i := 0; i < 16; i++ {
+		dst[i] = src[i] ^ 0x5a
+	}
+}
+func (xorBlock) Decrypt(dst, src []byte) {
+	for i := 0; i < 16; i++ {
+		dst[i] = src[i] ^ 0x5a
+	}
+}
+
+var _ cipher.Block = xorBlock{}
+
+// HarnessC07_KeyWrapLinear: KeyUnwrap / KeyWrap on a peer-supplied key of n, 2n, 4n 64-bit
+// blocks: the work grows no faster than linearly with the length.
+func HarnessC07_KeyWrapLinear() {
+	unwrap := vChoice(2) == 0
+	cost := func(n int) int {
+		data := vPattern(8*(n+1), 5)
+		return vMeasure(func() {
+			if unwrap {
+				KeyUnwrap(xorBlock{}, data)
+			} else {
+				KeyWrap(xorBlock{}, data)
+			}
+		})
+	}
+	vLinear(cost, 160, 256, 2048, "key (un)wrap cost grows no faster than linearly with the key length")
+	vReach("c07-keywrap-linear")
+}
